@@ -399,7 +399,7 @@ var selfTest = new(bool)
 var domain = map[string]bool{}
 
 func init() {
-	for _, t := range []string{"RangeStmt", "AssignStmt", "IndexExpr", "Ident", "ValueSpec", "GenDecl", "BinaryExpr", "ForStmt",
+	for _, t := range []string{"RangeStmt", "AssignStmt", "IndexExpr", "IndexListExpr", "Ident", "ValueSpec", "GenDecl", "BinaryExpr", "ForStmt",
 		"ArrayType", "DeferStmt", "MapType", "ReturnStmt", "SliceExpr", "StarExpr", "UnaryExpr", "SendStmt", "SelectStmt",
 		"ImportSpec", "IfStmt", "GoStmt", "Field", "SelectorExpr", "StructType", "KeyValueExpr", "FuncType", "FuncLit",
 		"FuncDecl", "ChanType", "CallExpr", "CaseClause", "CommClause", "CompositeLit", "EmptyStmt", "SwitchStmt",
